@@ -5,6 +5,7 @@
    Gen/ImportsSrc.v holds static facts re-extracted from restorer.go on every run. *)
 From Coq Require Import List String ZArith NArith Bool.
 Import ListNotations.
+From DV Require Import Model.Decision Gen.DecisionSrc Proofs.PathOrderProofs.
 From DV Require Import Model.Tree Model.Imports Proofs.ImportsProofs Proofs.ImportsExact Gen.ImportsSrc.
 Local Open Scope string_scope.
 Local Open Scope list_scope.
@@ -143,6 +144,21 @@ Example C07_nonvacuous :
   end.
 Proof. vm_compute. repeat split. Qed.
 
+
+(* packagePathOrderLess -- the order in which required imports are named (who keeps the plain name, who gets the counter) and listed -- is translated from restorer.go on every run
+   (a decision program: one guarded return, one return) and proved to compute Model/Imports.path_less for
+   every pair of paths: paths with a dot after paths without, otherwise by string order *)
+Theorem C07_path_order_source_computes_the_model :
+  forall a b,
+    match run (order_val a b) packagepathorderless_src with
+    | OReturn (DVal s) => order_sym a b s = Some (Model.Imports.path_less a b)
+    | _ => False
+    end.
+Proof. exact path_order_source_is_model. Qed.
+
+Theorem C07_path_order_source_is_within_the_vocabulary : order_vocabulary_ok = true.
+Proof. vm_compute. reflexivity. Qed.
+
 Print Assumptions C07_conflicts_resolved_in_sorted_order.
 Print Assumptions C07_conflict_loop_finds_a_free_name.
 Print Assumptions C07_import_names_pairwise_distinct.
@@ -153,3 +169,5 @@ Print Assumptions C07_every_reference_is_bound_by_its_import.
 Print Assumptions C07_alias_map_beats_source_alias_beats_nothing.
 Print Assumptions C07_effective_alias_beats_resolved_name.
 Print Assumptions C07_source_alias_table_is_a_map.
+Print Assumptions C07_path_order_source_computes_the_model.
+Print Assumptions C07_path_order_source_is_within_the_vocabulary.
